@@ -14,7 +14,8 @@ Fixpoint natlist_eqb (a b : list nat) : bool :=
   end.
 
 Definition conf_eqb (a b : conf) : bool :=
-  natlist_eqb (c_in a) (c_in b) && natlist_eqb (c_out a) (c_out b) && Bool.eqb (c_auto a) (c_auto b).
+  natlist_eqb (c_in a) (c_in b) && natlist_eqb (c_out a) (c_out b) && Bool.eqb (c_auto a) (c_auto b)
+  && natlist_eqb (c_learn a) (c_learn b).
 
 Inductive cverdict : Type :=
 | CVOk (x' : cxstate)
